@@ -29,6 +29,8 @@ def run(ctx):
     b_regions(ctx)
     c_restore(ctx)
     d_contextvars(ctx)
+    d_entry_points(ctx)
+    d_shared_action_state(ctx)
 
 
 def _role_branches(fn, msgvar=None):
@@ -298,3 +300,79 @@ def d_contextvars(ctx):
                               ("allowed instance store: " + SELF_STORE_ALLOW[base.attr]) if ok else
                               "request-time store to `self.%s`: request-scoped data on the shared LLMRails instance is visible to concurrent conversations" % base.attr,
                               line=n.lineno)
+
+
+GEN_MODULES = ["nemoguardrails/actions/llm/generation.py", "nemoguardrails/actions/v2_x/generation.py"]
+
+
+def d_entry_points(ctx):
+    """generate_async publishes the raw request and the generation options in context variables that the generation actions READ.  The event-based entry points
+    (generate_events_async, process_events_async) run the same actions; a task that serves conversations one after the other keeps its context, so each of these entry points
+    must (re)set every such variable - otherwise conversation 2 is prompted with conversation 1's messages and llm_params."""
+    tr = ctx.tree.ast(LLMRAILS)
+    t = ctx.tree.ast(CONTEXT)
+    cvars = [s_.targets[0].id for s_ in t.body if isinstance(s_, ast.Assign) and isinstance(s_.value, ast.Call) and src(s_.value.func).endswith("ContextVar")]
+    gen = find_function(tr, "generate_async", "LLMRails")
+    set_by_generate = {c.func.value.id for c in walk_no_nested(gen) if isinstance(c, ast.Call) and isinstance(c.func, ast.Attribute) and c.func.attr == "set"
+                       and isinstance(c.func.value, ast.Name) and c.func.value.id in cvars}
+    read_by_actions = set()
+    for rel in GEN_MODULES:
+        for c in ast.walk(ctx.tree.ast(rel)):
+            if isinstance(c, ast.Call) and isinstance(c.func, ast.Attribute) and c.func.attr == "get" and isinstance(c.func.value, ast.Name) and c.func.value.id in cvars:
+                read_by_actions.add(c.func.value.id)
+    # variables whose value is request DATA (not the handler/statistics objects an entry point may legitimately inherit from its caller)
+    data_vars = sorted(v for v in set_by_generate & read_by_actions if v in ("raw_llm_request", "generation_options_var"))
+    ctx.floor("C15.d.entry-points", LLMRAILS, "request-data context variables read by the generation actions", len(data_vars), 2, data_vars)
+    cls = find_class(tr, "LLMRails")
+    n = 0
+    for f in [m for m in cls.body if isinstance(m, ast.AsyncFunctionDef) and m.name != "generate_async"]:
+        if not any(isinstance(c, ast.Call) and src(c.func) in ("self.runtime.generate_events", "self.runtime.process_events") for c in walk_no_nested(f)):
+            continue
+        n += 1
+        sets = {c.func.value.id for c in walk_no_nested(f) if isinstance(c, ast.Call) and isinstance(c.func, ast.Attribute) and c.func.attr == "set" and isinstance(c.func.value, ast.Name)}
+        missing = [v for v in data_vars if v not in sets]
+        ctx.check("C15.d.entry-points", LLMRAILS, "LLMRails." + f.name, "request-data context variables (re)set", not missing,
+                  "the entry point sets %s before it runs the runtime" % data_vars if not missing else
+                  "`%s` runs the generation actions without setting %s: called after generate_async in the same task (a worker serving conversations one after the other) it processes this "
+                  "conversation with the previous conversation's raw request (passthrough prompt) and llm_params" % (f.name, missing), line=f.lineno)
+    ctx.floor("C15.d.entry-points", LLMRAILS, "event-based entry points that run the runtime", n, 2)
+
+
+def d_shared_action_state(ctx):
+    """The generation action classes are instantiated once per LLMRails and serve every conversation.  A method that runs per request (an @action) must not keep
+    conversation data in `self.<attr>`: the next conversation reads it."""
+    def stores(tree):
+        out = []
+        for cls in [n_ for n_ in tree.body if isinstance(n_, ast.ClassDef)]:
+            for fn in [m for m in cls.body if isinstance(m, (ast.FunctionDef, ast.AsyncFunctionDef))]:
+                if not any(src(d).startswith("action") for d in fn.decorator_list):
+                    continue
+                for n_ in walk_no_nested(fn):
+                    tg = n_.targets if isinstance(n_, ast.Assign) else [n_.target] if isinstance(n_, (ast.AugAssign, ast.AnnAssign)) else []
+                    for x in tg:
+                        b = x
+                        while isinstance(b, ast.Subscript):
+                            b = b.value
+                        if isinstance(b, ast.Attribute) and isinstance(b.value, ast.Name) and b.value.id == "self":
+                            out.append((cls.name, fn.name, n_, b.attr))
+        return out
+    # planted positive example: the detector itself must see a store
+    sample = ast.parse("class A:\n    @action(name='X')\n    async def f(self, state):\n        self._last = state.x\n")
+    for n_ in ast.walk(sample):
+        for ch in ast.iter_child_nodes(n_):
+            ch._parent = n_
+    if len(stores(sample)) != 1:
+        raise AnalysisError("shared-action-state self-test failed", anchor="C15.d/self-test")
+    n_actions = 0
+    for rel in GEN_MODULES:
+        tree = ctx.tree.ast(rel)
+        n_actions += sum(1 for cls in tree.body if isinstance(cls, ast.ClassDef) for fn in cls.body
+                         if isinstance(fn, (ast.FunctionDef, ast.AsyncFunctionDef)) and any(src(d).startswith("action") for d in fn.decorator_list))
+        found = stores(tree)
+        for cname, fname, node, attr in found:
+            ctx.check("C15.d.shared-action-state", rel, "%s.%s" % (cname, fname), first_line(node, 60), False,
+                      "`self.%s` is written by an action that runs for every conversation, on the one actions object of the LLMRails instance: another conversation reads what this one "
+                      "stored (flow generation used the instructions of whichever conversation ran last)" % attr, line=node.lineno)
+        ctx.check("C15.d.shared-action-state", rel, "<module>", "instance stores in @action methods", not found,
+                  "no @action method stores conversation data on the shared actions object", line=1)
+    ctx.floor("C15.d.shared-action-state", GEN_MODULES[0], "@action methods of the generation action classes", n_actions, 15)
